@@ -72,7 +72,7 @@ func runC06(c *Ctx) {
 			w.stop()
 		}
 	}()
-	n := c.N(90, 1500)
+	n := c.N(90, 4500)
 	names := []string{}
 	for _, v := range predefinedVars {
 		names = append(names, v.Name)
